@@ -156,8 +156,12 @@ class Sched:
         t.steps += 1
         t.baton.release()
         if not self.ctrl.acquire(timeout=self.stall_s):
-            raise Deadlock('%s: thread %s did not reach a synchronisation point within %s s (real blocking call?)'
-                           % (self.name, t.name, self.stall_s))
+            import sys
+            import traceback
+            fr = sys._current_frames().get(t.thread.ident) if t.thread else None
+            where = ''.join(traceback.format_stack(fr)[-6:]) if fr else '?'
+            raise Deadlock('%s: thread %s did not reach a synchronisation point within %s s (real blocking call?)\n%s\ntrace: %s'
+                           % (self.name, t.name, self.stall_s, where, [self.trace[-12:], [(x.name, x.state, x.thread is not None) for x in self.threads]]))
 
     def run(self):
         """run all spawned threads to completion under the symbolic schedule; returns the threads"""
@@ -165,6 +169,11 @@ class Sched:
             raise RuntimeError('nested schedulers')
         Sched.current = self
         self.running = True
+        # finalizers of cyclic garbage (e.g. SecopClient.__del__ of an earlier path) must not run at an arbitrary
+        # allocation inside a logical thread: they would add synchronisation points that no replay can reproduce
+        import gc
+        gc_was_enabled = gc.isenabled()
+        gc.disable()
         for t in self.threads:
             self._start(t)
         try:
@@ -219,6 +228,9 @@ class Sched:
             self._kill_all()
             self.running = False
             Sched.current = None
+            if gc_was_enabled:
+                gc.enable()
+                gc.collect()
         return self.threads
 
     def _kill_all(self):
